@@ -67,7 +67,9 @@ def make_action(spec):
         def f(s, l, t): return v
         sx = "(conststr %s)" % chars_sx(v)
     elif kind == "upper":
-        def f(s, l, t): return [x.upper() if isinstance(x, str) else x for x in t]
+        # the test action upper-cases a-z only (Model/Core.v AUpper / upper_c): str.upper() on non-ASCII text is not modelled
+        _UP = {c: c - 32 for c in range(97, 123)}
+        def f(s, l, t): return [x.translate(_UP) if isinstance(x, str) else x for x in t]
         sx = "upper"
     elif kind == "join":
         def f(s, l, t): return "".join(t._asStringList())
@@ -129,6 +131,8 @@ class Builder:
         if self.share and not mutating and g in self.memo:
             return self.memo[g]
         e = self._build(g)
+        if e is None:
+            raise Unbuildable("the API call for %r returned None" % (g[0],))
         if self.share and not mutating:
             self.memo[g] = e
         return e
